@@ -17,6 +17,7 @@ elab "#audit_module " m:ident : command => do
     if n.isInternalDetail then continue
     -- only theorems written in the source file (equation lemmas etc. have no declaration range)
     let some _ ← findDeclarationRanges? n | continue
+    if env.isProjectionFn n then continue
     match env.find? n with
     | some (.thmInfo _) =>
       let axs ← liftCoreM (collectAxioms n)
